@@ -434,6 +434,19 @@ def evs(v, specs, depth=0):
         for sc in evs(v.get('scrut'), specs, depth + 1):
             sh = _shape(sc)
             hit = False
+            scv = vt.unvar(sc)
+            if sh is None and isinstance(scv, dict) and scv.get('k') == 'path' and str(scv.get('text', '')).replace(' ', '').split('::')[-1][:1].isupper():
+                # the scrutinee evaluated to a unit variant (`Self::Pascal`): the arm that names it (or the first catch-all) is taken
+                vn = str(scv['text']).replace(' ', '').split('::')[-1]
+                for a in v.get('arms', []):
+                    vs = _short(a.get('variants', []))
+                    pat = str(a.get('pat', '')).strip()
+                    if (vn in vs or '_' in vs or (not vs and pat.replace('_', 'a').isidentifier())) and a.get('guard') is None:
+                        outs += evs(a.get('v'), specs, depth + 1)
+                        hit = True
+                        break
+                if hit:
+                    continue
             if sh is not None:
                 for a in v.get('arms', []):
                     vs = _short(a.get('variants', []))
